@@ -813,6 +813,9 @@ def fold_ext_attr(mod, name):
     if mod == 'functools' and name == 'WRAPPER_ASSIGNMENTS':
         import functools
         return K(tuple(functools.WRAPPER_ASSIGNMENTS))
+    if mod == 'sys' and name in ('maxsize', 'maxunicode', 'byteorder'):
+        import sys
+        return K(getattr(sys, name))
     if mod == 'string':
         import string
         v = getattr(string, name, None)
